@@ -66,9 +66,13 @@ func (z *fzDec) desc(depth, ctx int) Desc {
 		}
 		return d
 	case KArray:
-		n := int(z.r.u8()) % 41
+		b := z.r.u8()
+		n := int(b) % 41
 		if ctx == ctxElem && n == 0 {
 			n = 1
+		}
+		if ctx == ctxElem && b >= 0xf8 {
+			n = []int{256, 512, 1024, 4096}[b&3] // large fixed-size vector elements
 		}
 		return Desc{K: KArray, N: n}
 	case KBytes, KVec:
